@@ -14,7 +14,7 @@ PROP_UNITS = {
     'C02': ['position'],
     'C11': ['draws'],
     'C20': ['csp'],
-    'C12': ['tt', 'mate'],
+    'C12': ['tt', 'mate', 'tbindex'],
     'C01': ['bits', 'bbtables', 'movegen'],
     'C04': ['tt', 'mate'],
     'C13': ['mate'],
